@@ -20,6 +20,7 @@ def desc: nn(todescription | nn(.));
 def blen: nn(tobytes | length | tostring);
 def bit: nn(if tovalue then "1" else "0" end);
 def err: if ._error == null then "ok" else "err" end;
+def dsc: nn(todescription | nn(hx));
 def line(f): [input_filename, err] + (try f catch ["JQERR", (tostring | hx)]) | join(" ");
 `
 
@@ -27,7 +28,7 @@ const jqGzip = jqDefs + `
 def member:
   ["M", (.compression_method|num),
    (.flags | [(.text|bit), (.header_crc|bit), (.extra|bit), (.name|bit), (.comment|bit)] | join("")),
-   (.flags.reserved|num), (.mtime|num), (.extra_flags|num), (.os|num),
+   (.flags.reserved|num), (.mtime|num), (.mtime|dsc), (.extra_flags|num), (.os|num),
    (.xlen|num), (.extra_fields|hb), (.name|hs), (.comment|hs), (.header_crc|hb),
    "B", (.compressed|blen), (.crc32|num), (.crc32|desc), (.isize|num), (.uncompressed|hb)];
 line([(.members|length|tostring)] + ([.members[] | member] | add // []) + ["U", (.uncompressed|hb)])
@@ -35,7 +36,7 @@ line([(.members|length|tostring)] + ([.members[] | member] | add // []) + ["U", 
 
 const jqTar = jqDefs + `
 def file:
-  ["F", (.name|hs), (.mode|sym), (.uid|sym), (.gid|sym), (.size|sym), (.mtime|sym), (.chksum|sym),
+  ["F", (.name|hs), (.mode|sym), (.uid|sym), (.gid|sym), (.size|sym), (.mtime|sym), (.mtime|dsc), (.chksum|sym),
    (.typeflag|hs), (.linkname|hs), (.magic|hs), (.version|sym), (.uname|hs), (.gname|hs),
    (.devmajor|sym), (.devminor|sym), (.prefix|hs), (.header_block_padding|blen), (.data|hb), (.data_block_padding|blen)];
 line([(.files|length|tostring)] + ([.files[] | file] | add // []) + ["E", (.end_marker|blen)])
@@ -49,21 +50,26 @@ def chunk:
         (.compression_method|num), (.filter_method|num), (.interlace_method|num)]
      elif (.type|tovalue) == "tEXt" then ["T", (.keyword|hs), (.text|hs)]
      elif (.type|tovalue) == "zTXt" then ["Z", (.keyword|hs), (.compression_method|num), (.uncompressed.text|hs)]
-     elif (.type|tovalue) == "PLTE" then ["P", (.palette|length|tostring)]
+     elif (.type|tovalue) == "PLTE" then ["P", (.palette|length|tostring), ([.palette[] | (.r, .g, .b) | tovalue] | tobytes | hx)]
+     elif (.type|tovalue) == "pHYs" then ["Y", (.x_pixels_per_unit|num), (.y_pixels_per_unit|num), (.unit|num)]
      else [] end);
 line([(.signature|hb), (.chunks|nn(length|tostring))] + ([.chunks[]? | chunk] | add // []))
 `
 
 const jqZip = jqDefs + `
 def flagsdd: (.flags.data_descriptor|bit) + (.flags.language_encoding|bit);
+def lm: .last_modification | ["T", (.fat_time|num), (.fat_date|num), (.second|num), (.second|sym), (.minute|num), (.hour|num),
+   (.day|num), (.month|num), (.year|num), (.year|sym), (.unix_guess|num), (.unix_guess|nn(todescription|nn(hx)))];
+def xf: ["X", (.extra_fields | nn(map((.tag|num) + ":" + (.size|num) + ":" + (.modification_time|num)) | join(",") | if . == "" then "-" else . end))];
 def cd:
   ["D", (.file_name|hs), (.compression_method|num), flagsdd, (.crc32_uncompressed|num), (.compressed_size|num),
-   (.uncompressed_size|num), (.relative_offset_of_local_file_header|num), (.file_comment|hs), (.extra_fields|nn(length|tostring))];
+   (.uncompressed_size|num), (.relative_offset_of_local_file_header|num), (.file_comment|hs), (.extra_fields|nn(length|tostring)),
+   (.external_file_attributes|num)] + lm + xf;
 def lf:
   ["L", (.file_name|hs), (.compression_method|num), flagsdd, (.crc32_uncompressed|num), (.compressed_size|num),
    (.uncompressed_size|num), (.uncompressed|hb), (.compressed|blen),
    (.data_indicator|nn("1")), (.data_indicator|nn(.signature|hb)), (.data_indicator|nn(.crc32_uncompressed|num)),
-   (.data_indicator|nn(.compressed_size|num)), (.data_indicator|nn(.uncompressed_size|num))];
+   (.data_indicator|nn(.compressed_size|num)), (.data_indicator|nn(.uncompressed_size|num))] + lm + xf;
 line((.end_of_central_directory_record | ["E", (.disk_nr|num), (.nr_of_central_directory_records_on_disk|num), (.nr_of_central_directory_records|num),
         (.size_of_central_directory|num), (.offset_of_start_of_central_directory|num), (.comment|hs)])
      + [(.central_directories|nn(length|tostring))] + ([.central_directories[]? | cd] | add // [])
